@@ -265,6 +265,7 @@ Proof.
   destruct (c =? 46); [unfold abs_real, abs_real_gen; vp|].
   destruct (c =? 101); [unfold abs_int_exp; vp|].
   destruct (c =? 35); [unfold abs_based; vp|].
+  destruct (c =? 58); [apply valP_bind; intros [|]; [unfold abs_based; vp|exact Hplain]|].
   destruct (is_bs_letter c); [|exact Hplain].
   unfold abs_bit_string. apply valP_bind; intros [iv it]. apply valP_bind; intros [bs|]; [apply valP_parse_bit_string|vp].
 Qed.
@@ -274,12 +275,13 @@ Proof. intros w c. unfold ends_e. rewrite rev_app_distr. reflexivity. Qed.
 
 (* the follow conditions of a number, as the lockstep lemmas want them *)
 Lemma num_follow_facts : forall txt x, num_follow txt x = true ->
-  hd_sat x is_idc = false /\ hd_is x 46 = false /\ hd_is x 35 = false /\
+  hd_sat x is_idc = false /\ hd_is x 46 = false /\ hd_is x 35 = false /\ hd_is x 58 = false /\
   ((exists w c, txt = w ++ [c] /\ is_e c = true) -> hd_is x 45 = false /\ hd_is x 43 = false).
 Proof.
-  intros txt x H. unfold num_follow in H. apply andb_true_iff in H. destruct H as [H Hs]. apply andb_true_iff in H. destruct H as [H H35].
-  apply andb_true_iff in H. destruct H as [Hn H46]. apply negb_true_iff in Hn, H46, H35, Hs.
-  split; [exact Hn|]. split; [exact H46|]. split; [exact H35|]. intros [w [c [-> He]]]. rewrite ends_e_snoc, He in Hs. cbn [andb] in Hs.
+  intros txt x H. unfold num_follow in H. apply andb_true_iff in H. destruct H as [H Hs]. apply andb_true_iff in H. destruct H as [H H58].
+  apply andb_true_iff in H. destruct H as [H H35].
+  apply andb_true_iff in H. destruct H as [Hn H46]. apply negb_true_iff in Hn, H46, H35, H58, Hs.
+  split; [exact Hn|]. split; [exact H46|]. split; [exact H35|]. split; [exact H58|]. intros [w [c [-> He]]]. rewrite ends_e_snoc, He in Hs. cbn [andb] in Hs.
   apply orb_false_iff in Hs. exact Hs.
 Qed.
 
@@ -295,8 +297,8 @@ Proof.
     - apply andb_true_iff in Hf. destruct Hf as [H34 Hf]. cbn [hd_sat] in Hf. rewrite Hd in Hf. split; [exact Hf|]. intros _. apply negb_true_iff. exact H34.
     - split; [exact Hf|]. rewrite Hv. discriminate.
     - split; [exact Hf|]. rewrite Hv. discriminate. }
-  destruct Hnum as [Hnum H34]. destruct (num_follow_facts _ _ Hnum) as [Hn [H46 [H35 Hsg]]].
-  apply (pt_lock_digit d1 d2 HD1 HD2 x Hx' (b :: l) F1 F2 HF2 Hn H46 H35 Hsg start last start2 last2 st s b l _ _ _ _ PT HL Hd H34).
+  destruct Hnum as [Hnum H34]. destruct (num_follow_facts _ _ Hnum) as [Hn [H46 [H35 [H58 Hsg]]]].
+  apply (pt_lock_digit d1 d2 HD1 HD2 x Hx' (b :: l) F1 F2 HF2 Hn H46 H35 H58 Hsg start last start2 last2 st s b l _ _ _ _ PT HL Hd H34).
 Qed.
 Lemma lock_bits : forall tok b l, is_alpha b || (b =? 95) = true -> t_kind tok = KBitString ->
   (match t_val tok with VBitString t _ _ _ => t = b :: l | _ => False end) -> lock_for tok (b :: l).
